@@ -24,7 +24,9 @@ PHASE = {1: [2, 8, 14, 22, 2, 9, 15, 22, 1, 9, 16, 23, 3, 12, 21],
          3: [6, 13, 20, 23, 1, 9, 9, 22, 1, 6, 12, 19, 23, 2, 12, 21, 1, 10, 21]}
 CONDS = [[("is_good", "==", 2)], [("duration", ">=", 8)], [("duration", "<", 8), ("is_good", "!=", 0)], [("start_sample", ">", 6)],
          [("m3", "<=", 2)], [("m3", ">", 200)], [("start_sample", ">=", 0), ("duration", "!=", 6), ("m3", "<", 6)],
-         [("chain_ind", ">", -2)], [("duration", ">", 7)], [("m1", ">", 20)], [("m1", "<=", 21), ("duration", "==", 8)]]
+         [("chain_ind", ">", -2)], [("duration", ">", 7)], [("m1", ">", 20)], [("m1", "<=", 21), ("duration", "==", 8)],
+         [("chain_position", "==", 0)], [("duration", "==+", 8)],
+         [("duration", "!=+", 8), ("start_sample", "<=+", 16), ("start_sample", ">+", 0)]]
 FUNC = {'sum': np.sum, 'max': np.max, 'len': len}
 
 
@@ -39,7 +41,13 @@ def spell(l2, k):
 
 
 def render(conds, k):
-    return ['%s%s%s' % (n, op, spell(l2, k + i)) for i, (n, op, l2) in enumerate(conds)]
+    out = []
+    for i, (n, op, l2) in enumerate(conds):
+        if op.endswith('+'):            # the literal plus a tiny amount: l2 is even here
+            out.append('%s%s%d.%s' % (n, op[:-1], l2 // 2, ('000001', '0000001')[k % 2]))
+        else:
+            out.append('%s%s%s' % (n, op, spell(l2, k + i)))
+    return out
 
 
 def vectors(fam):
@@ -105,7 +113,7 @@ def replay(emd, fam, hist, states, k):
         rows = []
         for C in objs:
             try:
-                rows.append(apply_op(emd, C, op, vecs, K, k + i))
+                rows.append(apply_op(emd, C, op, vecs, K, k))
             except Exception as e:
                 return 'op %d %s raised %s: %s (use_cache=%s)' % (i + 1, op, type(e).__name__, e, C._slice_cache is not None)
         pa, pb = project(objs[0]), project(objs[1])
@@ -128,8 +136,8 @@ def _job(args):
     return [(j, fam, replay(emd, fam, h, states[fam], j)) for j, fam, h in items]
 
 
-def export(ctx, cfg, fam, depth, simulate=None, focus=False):
-    consts = {'M': 24, 'MaxOps': depth, 'Fam': fam, 'Focus': 'TRUE' if focus else 'FALSE'}
+def export(ctx, cfg, fam, depth, simulate=None, focus=0):
+    consts = {'M': 24, 'MaxOps': depth, 'Fam': fam, 'Focus': int(focus)}
     core.write_cfg(cfg, spec='Spec', invariants=['Export_'], constants=consts)
     if simulate:
         res = core.run_tlc(ctx, 'CyclesContainer', cfg, name='CyclesContainer fam %d simulation' % fam, workers=1,
@@ -148,22 +156,24 @@ def run():
     states, items = {}, []
     nsim = ctx.pick(60, 600)
     for fam in (1, 2, 3):
-        core.write_cfg(cfg, spec='Spec', invariants=invs, constants={'M': 24, 'MaxOps': D + 1, 'Fam': fam, 'Focus': 'FALSE'})
+        core.write_cfg(cfg, spec='Spec', invariants=invs, constants={'M': 24, 'MaxOps': D + 1, 'Fam': fam, 'Focus': 0})
         res = core.run_tlc(ctx, 'CyclesContainer', cfg, name='CyclesContainer fam %d depth %d' % (fam, D + 1))
         core.require_ok(res, 'Leg A CyclesContainer')
         behs = export(ctx, cfg, fam, D)
         sim = export(ctx, cfg, fam, 12, simulate=nsim)
         FD = ctx.pick(4, 5)
-        foc = export(ctx, cfg, fam, FD, focus=True) if fam != 3 or not ctx.quick else []
+        foc = export(ctx, cfg, fam, FD, focus=1) if fam != 3 or not ctx.quick else []
+        F2 = ctx.pick(7, 8)             # includes the compute_cycle_timings preamble
+        foc2 = export(ctx, cfg, fam, F2, focus=2)
 
         def hist_of(b):
             return [list(o) for o in b['hist']]
         st = {}
-        for b in behs + sim + foc:
+        for b in behs + sim + foc + foc2:
             st[json.dumps(hist_of(b))] = {'metrics': [list(m) for m in b['metrics']], 'subset': list(b['subset']), 'chain': list(b['chain']),
                                           'lastExport': list(b['lastExport'])}
         states[fam] = st
-        paths = [hist_of(b) for b in behs if len(b['hist']) == D] + [hist_of(b) for b in foc if len(b['hist']) == FD]
+        paths = [hist_of(b) for b in behs if len(b['hist']) == D] + [hist_of(b) for b in foc if len(b['hist']) == FD] + [hist_of(b) for b in foc2 if len(b['hist']) == F2]
         deep = {}
         for b in sim:
             if len(b['hist']) == 12:
@@ -171,7 +181,7 @@ def run():
         for h in paths + list(deep.values()):
             items.append((len(items), fam, h))
     for w in ('W_TwoChains', 'W_EmptySelection'):
-        core.write_cfg(cfg, spec='Spec', invariants=[w], constants={'M': 24, 'MaxOps': 3, 'Fam': 2, 'Focus': 'FALSE'})
+        core.write_cfg(cfg, spec='Spec', invariants=[w], constants={'M': 24, 'MaxOps': 3, 'Fam': 2, 'Focus': 0})
         core.expect_violation(ctx, 'CyclesContainer', cfg, w, 'CyclesContainer ' + w, workers=4)
     ctx.leg('A', invariants=invs, histories=len(items))
     nbad = 0
